@@ -1170,14 +1170,18 @@ class Unit:
                 f = self.new_tmp('__first')
                 c = self.loop_cond(cond)
                 self.w(p + '_Bool %s = 1;' % f)
+                self.ghost('before_loop:%d' % ln, p)
                 self.w(p + 'while (%s || %s)' % (f, c)); self.loopc(ln, p)
                 self.loop_body(body, ind, ln, first_stmt='%s = 0;' % f)
+                self.ghost('after_loop:%d' % ln, p)
         elif k == 'WhileStmt':
             ks = self.kids(n)
             if len(ks) != 2: raise Unsupported('while with condition variable')
             cond, body = ks
             self.loop_no += 1; ln = self.loop_no
+            self.ghost('before_loop:%d' % ln, p)
             self.w(p + 'while (%s)' % self.loop_cond(cond)); self.loopc(ln, p); self.loop_body(body, ind, ln)
+            self.ghost('after_loop:%d' % ln, p)
         elif k == 'ForStmt':
             ks = n.get('inner', [])
             init, condvar, cond, inc, body = ks
@@ -1192,8 +1196,10 @@ class Unit:
                 i = self.expr(inc)
                 if self.pre or self.post: raise Unsupported('temporaries in for-increment (in %s)' % self.cur)
                 self.last_calls = []
+            self.ghost('before_loop:%d' % ln, p + '  ')
             self.w(p + '  for (; %s; %s)' % (c, i))
             self.loopc(ln, p + '  '); self.loop_body(body, ind + 1, ln)
+            self.ghost('after_loop:%d' % ln, p + '  ')
             self.scopes.pop()
             self.w(p + '}')
         elif k == 'CXXForRangeStmt':
